@@ -78,6 +78,7 @@ type Machine struct {
 	open            map[string]int // predicate key -> number of open enumerations with untried alternatives (approximation: live choice points)
 	flagUnknownFail bool
 	exitedCatches   int
+	VarOrder        bool // a sort hinged on the order of two distinct unbound variables
 }
 
 func key(name string, arity int) string { return fmt.Sprintf("%s/%d", name, arity) }
@@ -1009,6 +1010,13 @@ func (r *run) bagof(set bool, tmpl, goal, inst Term, f *frame) (bool, error) {
 			}
 			ts := append([]Term{}, gr.ts...)
 			if set {
+				for i := range ts {
+					for j := i + 1; j < len(ts); j++ {
+						if compareHasVarPair(ts[i], ts[j]) {
+							m.VarOrder = true // the order of two distinct variables decides: implementation dependent
+						}
+					}
+				}
 				sortTerms(ts)
 				var ded []Term
 				for _, t := range ts {
